@@ -111,13 +111,11 @@ def RPShape (src : Source) (rp : RPar) : Prop :=
   | .whole seq => src.par = .whole seq
   | .chunk a b _ => a ≤ b ∧ src.par.hasSeq = true
 
-/-- members of a well-formed source rebuilt on a parent `rp` the model can produce for it -/
-theorem members_norm_eq (src : Source) (wf : SrcWF src) (rp rp' : RPar) (hrp : rp.norm = rp'.norm)
-    (hshape : RPShape src rp)
-    (c : Child) (hc : c ∈ src.children) :
-    (liftChildP rp c).norm = (expectChild rp' c).norm := by
-  apply liftChildP_norm_eq rp rp' hrp
-  intro g hg
+/-- a grandchild of a well-formed source rebuilt on a parent `rp` the model can produce for it: its sequence is
+    the specified one -/
+theorem gc_mseq_norm (src : Source) (wf : SrcWF src) (rp : RPar) (hshape : RPShape src rp)
+    (c : Child) (hc : c ∈ src.children) (g : GChild) (hg : g ∈ c.gcs) :
+    (liftG rp c.kind g).mseq.norm = (expectMSeq rp g).norm := by
   have hgv : g.start ≤ g.stop := (wf.hull c hc).2 g hg
   have hpar := wf.par
   unfold ParWF at hpar
@@ -139,6 +137,13 @@ theorem members_norm_eq (src : Source) (wf : SrcWF src) (rp rp' : RPar) (hrp : r
       | chunk cs seq => rw [hp] at hpar; exact hpar.2.2 c hc
     rw [liftG_mseq _ _ _ (Or.inl hk)]
     exact memberSeq_norm_eq_expect _ g hgv hshape.1
+
+/-- members of a well-formed source rebuilt on a parent `rp` the model can produce for it -/
+theorem members_norm_eq (src : Source) (wf : SrcWF src) (rp rp' : RPar) (hrp : rp.norm = rp'.norm)
+    (hshape : RPShape src rp)
+    (c : Child) (hc : c ∈ src.children) :
+    (liftChildP rp c).norm = (expectChild rp' c).norm :=
+  liftChildP_norm_eq rp rp' hrp c (fun g hg => gc_mseq_norm src wf rp hshape c hc g hg)
 
 /-- The parent of the result for new bounds inside the source's bounds: `_subset_parent` succeeds and carries, in
     normal form, exactly the source's sequence restricted to the new bounds. -/
